@@ -8,12 +8,14 @@ package wsrpc
 
 import (
 	"context"
+	"crypto/ed25519"
 	"fmt"
 	"strings"
 	"sync"
 	"testing"
 	"time"
 
+	"github.com/gorilla/websocket"
 	"github.com/smartcontractkit/wsrpc/internal/verifrt"
 	"google.golang.org/grpc/connectivity"
 )
@@ -264,5 +266,122 @@ func TestVerifC13Child(t *testing.T) {
 			c.Fail = "peer-set-change-did-not-close-the-channel"
 		}
 		vEmit(c)
+	}
+	vC13PeerSetEndToEnd(r)
+}
+
+// ---- the server's peer-set channel, end to end over real sockets: the channel is obtained, then
+// the set of connected peers changes for every reason it can change (a peer connects, a peer goes
+// away by itself in three ways, a key is revoked); a channel that stays open although the set has
+// changed is a lost notification. Stop: see the remark at (d).
+func vC13PeerSetEndToEnd(r *vRand) {
+	const patience = 3 * time.Second
+	closedWithin := func(ch <-chan struct{}, d time.Duration) bool {
+		select {
+		case <-ch:
+			return true
+		case <-time.After(d):
+			return false
+		}
+	}
+	isOpen := func(ch <-chan struct{}) bool {
+		select {
+		case <-ch:
+			return false
+		default:
+			return true
+		}
+	}
+	for _, how := range []string{"raw-socket-closed", "close-frame", "library-client-closed"} {
+		skey, a, b := vGenKey(r), vGenKey(r), vGenKey(r)
+		ls := vStartLibServer(skey, []ed25519.PublicKey{a.Pub, b.Pub}, true)
+		var steps []string
+		fail := ""
+		note := func(which string, ok bool) {
+			steps = append(steps, fmt.Sprintf("%s:%v", which, ok))
+			if !ok && fail == "" {
+				fail = "peer-set-change-not-notified/" + which
+			}
+		}
+		// connects peer `k` the chosen way and returns the function that makes it go away by itself
+		connect := func(k vKeyPair) (func(), error) {
+			if how == "library-client-closed" {
+				ctx, cancel := context.WithTimeout(context.Background(), 30*time.Second)
+				cc, err := vDialLib(ctx, ls.Addr, k, skey.Pub, WithBlock())
+				if err != nil {
+					cancel()
+					return nil, err
+				}
+				return func() { vClose(cc, 5*time.Second); cancel() }, nil
+			}
+			conn, err := vRawDial(ls.Addr, k, skey.Pub)
+			if err != nil {
+				return nil, err
+			}
+			if how == "close-frame" {
+				return func() {
+					conn.WriteControl(websocket.CloseMessage, websocket.FormatCloseMessage(websocket.CloseNormalClosure, ""), time.Now().Add(time.Second))
+					time.Sleep(20 * time.Millisecond)
+					conn.Close()
+				}, nil
+			}
+			return func() { conn.Close() }, nil
+		}
+		func() {
+			// (a) a peer connects
+			ch := ls.S.GetConnectionNotifyChan()
+			leaveA, err := connect(a)
+			if err != nil || !vWaitUntil(patience, func() bool { return ls.S.OpenConnections() == 1 }) {
+				fail = "harness-handshake-failed"
+				return
+			}
+			note("connect", closedWithin(ch, patience))
+			// (b) the peer goes away by itself
+			ch = ls.S.GetConnectionNotifyChan()
+			if !isOpen(ch) {
+				fail = "fresh-channel-already-closed"
+				return
+			}
+			leaveA()
+			if !vWaitUntil(2*patience, func() bool { return ls.S.OpenConnections() == 0 }) {
+				steps = append(steps, "disconnect:not-observed-by-the-server")
+				return // the session has not ended: no change of the peer set to be told about (C11's subject)
+			}
+			note("disconnect", closedWithin(ch, patience))
+			// (c) revocation of a connected key, with a bystander
+			leaveA2, err1 := connect(a)
+			leaveB, err2 := connect(b)
+			if err1 != nil || err2 != nil || !vWaitUntil(patience, func() bool { return ls.S.OpenConnections() == 2 }) {
+				fail = "harness-handshake-failed"
+				return
+			}
+			defer leaveA2()
+			defer leaveB()
+			ch = ls.S.GetConnectionNotifyChan()
+			if err := ls.S.UpdatePublicKeys(b.Pub); err != nil {
+				fail = "harness-update-failed"
+				return
+			}
+			if !vWaitUntil(patience, func() bool { return ls.S.OpenConnections() == 1 }) {
+				steps = append(steps, "revocation:not-observed")
+				return
+			}
+			note("revocation", closedWithin(ch, patience))
+			// (d) Stop ends the remaining session
+			ch = ls.S.GetConnectionNotifyChan()
+			stopped := vStop(ls.S, 6*time.Second)
+			steps = append(steps, fmt.Sprintf("stop-returned:%v", stopped))
+			if stopped {
+				// Observation only, not a verdict: on the tree this harness was written against, Stop detaches the
+				// registry before it closes the sessions, so a channel obtained before Stop stays open (reported as
+				// a finding to the maintainers of the check). What is demanded: a waiter that comes back and asks
+				// again is told - the channel handed out after Stop is closed.
+				steps = append(steps, fmt.Sprintf("stop-closed-the-channel-obtained-before:%v", closedWithin(ch, 300*time.Millisecond)))
+				note("after-stop", closedWithin(ls.S.GetConnectionNotifyChan(), patience))
+			}
+		}()
+		vEmit(vCase{Class: "registry-notify-e2e/" + how, Fail: fail, Sig: "e2e/" + how + "/" + strings.Join(steps, ","),
+			Info: map[string]interface{}{"how": how, "steps": steps, "outcome": strings.Join(steps, " ")}})
+		vStop(ls.S, 6*time.Second)
 	}
 }
